@@ -316,6 +316,207 @@ Proof.
   apply forallb_forall. intros d Hd. apply Threads.memn_In. apply Hall; auto.
 Qed.
 
+
+(* ---------------- C05: where the roots of the graph (nodes without parameters) are placed ---------------- *)
+Section Roots.
+(* the pool count (maximum antichain) is at least the number of asynchronous root providers *)
+Hypothesis np_roots : forall l, NoDup l -> (forall x, In x l -> x < nn /\ nreq x = 0 /\ isarg x = false /\ isasync x = true) -> length l <= np.
+
+Definition hasasync (p : list nat) : bool := negb (Pool.noasync isasync p).
+Definition cntA (st : ast) : nat := length (filter hasasync (pools st)).
+Definition placedA (st : ast) : list nat := filter isasync (map fst (asg st)).
+
+Record rinv (st : ast) (pre : list nat) : Prop := {
+  r_a : ainv st pre;
+  r_roots : forall n, In n pre -> nreq n = 0 /\ n < nn;
+  r_nodup : NoDup pre;
+  r_one : forall i, length (filter isasync (nth i (pools st) [])) <= 1;
+  r_single : forall i, 1 <= i -> nth i (pools st) [] <> [] -> exists x, nth i (pools st) [] = [x] /\ isasync x = true;
+  r_zero : nth 0 (pools st) [] <> [] \/ forall k, nth k (pools st) [] = [];
+  r_cnt : cntA st <= length (placedA st) }.
+
+Lemma filter_all_len {A0} (g : A0 -> bool) (l : list A0) d : (forall i, i < length l -> g (nth i l d) = true) -> length (filter g l) = length l.
+Proof.
+  induction l as [|x r IH]; intros H; simpl; auto. pose proof (H 0 ltac:(simpl; lia)) as H0. simpl in H0. rewrite H0. simpl. f_equal.
+  apply IH. intros i Hi. apply (H (S i)). simpl. lia.
+Qed.
+Lemma cnt_updf (g : list nat -> bool) : forall (l : list (list nat)) i f, i < length l ->
+  length (filter g (updf l i f)) + (if g (nth i l []) then 1 else 0) = length (filter g l) + (if g (f (nth i l [])) then 1 else 0).
+Proof.
+  induction l as [|x r IH]; intros i f Hi; [simpl in Hi; lia|]. destruct i; simpl.
+  - destruct (g x); destruct (g (f x)); simpl; lia.
+  - specialize (IH i f ltac:(simpl in Hi; lia)). destruct (g x); simpl; lia.
+Qed.
+Lemma noasync_app p n : Pool.noasync isasync (p ++ [n]) = Pool.noasync isasync p && negb (isasync n).
+Proof. unfold Pool.noasync. rewrite forallb_app. simpl. rewrite andb_true_r. reflexivity. Qed.
+Lemma noasync_filter p : Pool.noasync isasync p = true -> filter isasync p = [].
+Proof. unfold Pool.noasync. induction p as [|x r IH]; simpl; auto. destruct (isasync x); simpl; [discriminate|auto]. Qed.
+Lemma filter_noasync p : filter isasync p = [] -> Pool.noasync isasync p = true.
+Proof. unfold Pool.noasync. induction p as [|x r IH]; simpl; auto. destruct (isasync x); simpl; [discriminate|auto]. Qed.
+
+Lemma place_root st pre n : rinv st pre -> nreq n = 0 -> n < nn -> ~ In n pre -> rinv (place st n) (pre ++ [n]).
+Proof.
+  intros R Hr Hn Hnin. pose proof (r_a _ _ R) as I.
+  assert (Rr : forall m, In m (pre ++ [n]) -> nreq m = 0 /\ m < nn).
+  { intros m Hm. apply in_app_or in Hm. destruct Hm as [Hm|[<-|[]]]; [apply (r_roots _ _ R); auto | auto]. }
+  assert (Rn : NoDup (pre ++ [n])).
+  { pose proof (r_nodup _ _ R) as ND. clear - ND Hnin. induction pre as [|x l IH]; simpl; [constructor; auto; constructor|].
+    inversion ND; subst. constructor; [intro H; apply in_app_or in H; destruct H as [H|[H|[]]]; [auto | subst; apply Hnin; left; auto] | apply IH; auto; intro; apply Hnin; right; auto]. }
+  assert (Ia : ainv (place st n) (pre ++ [n])) by (apply place_inv; auto).
+  unfold place in *. destruct (isarg n) eqn:Ea.
+  - constructor; auto; try apply R.
+  - set (i := find_pool isasync deps n (pools st) (pprov st)) in *.
+    assert (HL : length (pprov st) = length (pools st)) by (rewrite (a_len _ _ I), (a_len' _ _ I); auto).
+    assert (Hlen : length (pools st) = np) by apply (a_len _ _ I).
+    assert (Hd : deps n = []) by (unfold deps; rewrite Hr; reflexivity).
+    assert (Hi : i < np) by (rewrite <- Hlen; apply find_pool_range; [exact HL | rewrite Hlen; auto]).
+    assert (Hpl : placedA {| pools := updf (pools st) i (fun l => l ++ [n]); pprov := updf (pprov st) i (fun l => n :: l); asg := asg st ++ [(n, i)] |} =
+                  placedA st ++ (if isasync n then [n] else [])).
+    { unfold placedA. cbn [asg]. rewrite map_app, filter_app. simpl. destruct (isasync n); reflexivity. }
+    destruct (isasync n) eqn:Es.
+    + (* an asynchronous root *)
+      destruct (find_pool_async_root isasync deps n (pools st) (pprov st) Es Hd HL ltac:(rewrite Hlen; auto)) as (F1 & F2).
+      destruct (Pool.noasync isasync (nth 0 (pools st) [])) eqn:N0.
+      * (* pool 0 has no asynchronous node yet *)
+        assert (E0 : i = 0) by (apply F1; reflexivity). clearbody i. subst i.
+        constructor; auto; cbn [pools].
+        -- intros j. destruct (Nat.eq_dec j 0) as [->|Hj].
+           ++ rewrite nth_updf_eq by lia. rewrite filter_app, (noasync_filter _ N0). simpl. rewrite Es. simpl. lia.
+           ++ rewrite nth_updf_neq by auto. apply (r_one _ _ R).
+        -- intros j Hj. rewrite nth_updf_neq by lia. apply (r_single _ _ R); auto.
+        -- left. rewrite nth_updf_eq by lia. destruct (nth 0 (pools st) []); discriminate.
+        -- rewrite Hpl, app_length. simpl. pose proof (cnt_updf hasasync (pools st) 0 (fun l => l ++ [n]) ltac:(lia)) as C.
+           unfold hasasync at 2 4 in C. rewrite noasync_app, N0, Es in C. simpl in C. pose proof (r_cnt _ _ R). unfold cntA in *. cbn [pools]. lia.
+      * (* pool 0 already has one: an empty pool must exist *)
+        destruct (first_empty (pools st) 0) as [j|] eqn:FE.
+        -- assert (Ej : i = j) by (apply F2; auto). clearbody i. subst i.
+           destruct (first_empty_spec _ _ _ FE) as (_ & Hej). rewrite Nat.sub_0_r in Hej.
+           assert (Hj0 : j <> 0) by (intros ->; rewrite Hej in N0; discriminate).
+           constructor; auto; cbn [pools].
+           ++ intros k. destruct (Nat.eq_dec k j) as [->|Hk].
+              ** rewrite nth_updf_eq by lia. rewrite Hej. simpl. rewrite Es. simpl. lia.
+              ** rewrite nth_updf_neq by auto. apply (r_one _ _ R).
+           ++ intros k Hk Hne. destruct (Nat.eq_dec k j) as [->|Hkj].
+              ** rewrite nth_updf_eq by lia. rewrite Hej. exists n. auto.
+              ** rewrite nth_updf_neq in * by auto. apply (r_single _ _ R); auto.
+           ++ left. rewrite nth_updf_neq by auto. intro E. rewrite E in N0. discriminate.
+           ++ rewrite Hpl, app_length. simpl. pose proof (cnt_updf hasasync (pools st) j (fun l => l ++ [n]) ltac:(lia)) as C.
+              unfold hasasync at 2 4 in C. rewrite Hej in C. simpl in C. rewrite Es in C. simpl in C. pose proof (r_cnt _ _ R). unfold cntA in *. cbn [pools]. lia.
+        -- (* no empty pool: every pool holds an asynchronous root already placed; with n that is one more than np *)
+           exfalso.
+           assert (Hall : forall k, k < length (pools st) -> hasasync (nth k (pools st) []) = true).
+           { intros k Hk. destruct (Nat.eq_dec k 0) as [->|Hk0]; [unfold hasasync; rewrite N0; reflexivity|].
+             assert (Hne : nth k (pools st) [] <> []).
+             { intro E. destruct (first_empty_complete (pools st) 0 k Hk E) as (j & Ej). congruence. }
+             destruct (r_single _ _ R k ltac:(lia) Hne) as (x & Ex & Ax). rewrite Ex. unfold hasasync, Pool.noasync. simpl. rewrite Ax. reflexivity. }
+           pose proof (filter_all_len hasasync (pools st) [] Hall) as Efull. pose proof (r_cnt _ _ R) as Hc. unfold cntA in Hc. rewrite Efull, Hlen in Hc.
+           assert (Hb : length (n :: placedA st) <= np).
+           { apply np_roots.
+             - constructor.
+               + unfold placedA. intro Hin. apply filter_In in Hin. destruct Hin as (Hin & _). rewrite (a_asg _ _ I) in Hin. apply filter_In in Hin. apply Hnin. apply Hin.
+               + unfold placedA. apply NoDup_filter. rewrite (a_asg _ _ I). apply NoDup_filter. apply (r_nodup _ _ R).
+             - intros x [<-|Hx]; [repeat split; auto|]. unfold placedA in Hx. apply filter_In in Hx. destruct Hx as (Hx & Ax). rewrite (a_asg _ _ I) in Hx.
+               apply filter_In in Hx. destruct Hx as (Hx & Bx). destruct (r_roots _ _ R x Hx). repeat split; auto. destruct (isarg x); [discriminate|reflexivity]. }
+           simpl in Hb. lia.
+    + (* a synchronous root goes to pool 0 *)
+      assert (E0 : i = 0).
+      { destruct (r_zero _ _ R) as [H0|He].
+        - apply find_pool_sync_root; auto.
+        - apply find_pool_first; auto; [rewrite Hlen; auto | intros v _; rewrite Hd; reflexivity]. }
+      clearbody i. subst i.
+      constructor; auto; cbn [pools].
+      * intros j. destruct (Nat.eq_dec j 0) as [->|Hj].
+        -- rewrite nth_updf_eq by lia. rewrite filter_app. simpl. rewrite Es. rewrite app_nil_r. apply (r_one _ _ R).
+        -- rewrite nth_updf_neq by auto. apply (r_one _ _ R).
+      * intros j Hj. rewrite nth_updf_neq by lia. apply (r_single _ _ R); auto.
+      * left. rewrite nth_updf_eq by lia. destruct (nth 0 (pools st) []); discriminate.
+      * rewrite Hpl, app_nil_r. pose proof (cnt_updf hasasync (pools st) 0 (fun l => l ++ [n]) ltac:(lia)) as C.
+        unfold hasasync at 2 4 in C. rewrite noasync_app, Es in C. simpl in C. rewrite andb_true_r in C. pose proof (r_cnt _ _ R). unfold cntA in *. cbn [pools].
+        destruct (Pool.noasync isasync (nth 0 (pools st) [])); simpl in C; lia.
+Qed.
+
+Lemma fold_roots : forall l st pre, rinv st pre -> (forall n, In n l -> nreq n = 0 /\ n < nn) -> NoDup (pre ++ l) -> rinv (fold_left place l st) (pre ++ l).
+Proof.
+  induction l as [|n l IH]; intros st pre R Hl ND; simpl; [rewrite app_nil_r; auto|].
+  replace (pre ++ n :: l) with ((pre ++ [n]) ++ l) in * by (rewrite <- app_assoc; auto).
+  apply IH; auto; [|intros m Hm; apply Hl; right; auto].
+  destruct (Hl n (or_introl eq_refl)) as (Hr & Hn). apply place_root; auto.
+  intro Hin. rewrite <- app_assoc in ND. simpl in ND. apply NoDup_remove_2 in ND. apply ND. apply in_or_app; auto.
+Qed.
+Lemma filter_repeat_nil (g : list nat -> bool) k : g [] = false -> filter g (repeat [] k) = [].
+Proof. intros H. induction k; simpl; auto. rewrite H. auto. Qed.
+Lemma ast0_rinv : rinv ast0 [].
+Proof.
+  constructor; unfold ast0; cbn [pools asg].
+  - apply ast0_inv.
+  - intros n [].
+  - constructor.
+  - intros i. rewrite nth_repeat. simpl. lia.
+  - intros i _ H. rewrite nth_repeat in H. congruence.
+  - right. intros k. apply nth_repeat.
+  - unfold cntA, placedA. cbn [pools asg]. rewrite filter_repeat_nil by reflexivity. simpl. lia.
+Qed.
+
+Definition aroot (n : nat) : bool := isasync n && Nat.eqb (nreq n) 0.
+Definition Q (st : ast) : Prop := forall i, length (filter aroot (nth i (pools st) [])) <= 1.
+Lemma filter_sub_len (l : list nat) : length (filter aroot l) <= length (filter isasync l).
+Proof. induction l as [|x r IH]; simpl; auto. unfold aroot at 1. destruct (isasync x); simpl; [destruct (Nat.eqb (nreq x) 0); simpl; lia | auto]. Qed.
+Lemma rinv_Q st pre : rinv st pre -> Q st.
+Proof. intros R i. eapply Nat.le_trans; [apply filter_sub_len | apply (r_one _ _ R)]. Qed.
+Lemma place_nonroot_Q st pre n : ainv st pre -> Q st -> nreq n <> 0 -> Q (place st n).
+Proof.
+  intros I Hq Hr. unfold place. destruct (isarg n); auto.
+  set (i := find_pool isasync deps n (pools st) (pprov st)).
+  assert (Hi : i < length (pools st)).
+  { apply find_pool_range; [rewrite (a_len _ _ I), (a_len' _ _ I); auto | rewrite (a_len _ _ I); auto]. }
+  intros j. cbn [pools]. destruct (Nat.eq_dec j i) as [->|Hj].
+  - rewrite nth_updf_eq by auto. rewrite filter_app. simpl. unfold aroot at 2. apply Nat.eqb_neq in Hr. rewrite Hr, andb_false_r. rewrite app_nil_r. apply Hq.
+  - rewrite nth_updf_neq by auto. apply Hq.
+Qed.
+Lemma fold_nonroots : forall l st pre, ainv st pre -> Q st -> (forall n, In n l -> nreq n <> 0) -> Q (fold_left place l st).
+Proof.
+  induction l as [|n l IH]; intros st pre I Hq Hl; simpl; auto.
+  apply (IH _ (pre ++ [n])); [apply place_inv; auto | eapply place_nonroot_Q; eauto; apply Hl; left; auto | intros m Hm; apply Hl; right; auto].
+Qed.
+
+Lemma tp_split : exists R NR, tp = R ++ NR /\ Forall (fun n => nreq n = 0) R /\ Forall (fun n => nreq n <> 0) NR.
+Proof. apply (Kahn.topo_roots_first nn outs nreq src outs_src). Qed.
+
+Theorem Q_final : Q final.
+Proof.
+  destruct tp_split as (R & NR & E & FR & FN). unfold final. rewrite E, fold_left_app.
+  assert (ND : NoDup ([] ++ R)).
+  { simpl. pose proof (proj1 tp_facts) as ND. rewrite E in ND. clear - ND. induction R as [|x r IH]; simpl in *; [constructor|]. inversion ND; subst. constructor; [intro H; apply H1; apply in_or_app; auto | apply IH; auto]. }
+  assert (HR : forall n, In n R -> nreq n = 0 /\ n < nn).
+  { intros n Hn. split; [rewrite Forall_forall in FR; auto | apply tp_facts; rewrite E; apply in_or_app; auto]. }
+  pose proof (fold_roots R ast0 [] ast0_rinv HR ND) as RR. simpl in RR.
+  apply (fold_nonroots NR _ R); [apply (r_a _ _ RR) | eapply rinv_Q; eauto | rewrite Forall_forall in FN; auto].
+Qed.
+
+(* two different asynchronous providers without parameters never share a pool ... *)
+Theorem async_roots_apart n n' i : In n (pool i) -> In n' (pool i) -> aroot n = true -> aroot n' = true -> n = n'.
+Proof.
+  intros Hn Hn' An An'. destruct (lt_dec i np) as [Hi|Hi]; [|rewrite pool_beyond in Hn by lia; destruct Hn].
+  rewrite pool_is_nth in * by auto. pose proof (Q_final i) as Hq.
+  assert (F : In n (filter aroot (nth i (pools final) []))) by (apply filter_In; auto).
+  assert (F' : In n' (filter aroot (nth i (pools final) []))) by (apply filter_In; auto).
+  destruct (filter aroot (nth i (pools final) [])) as [|x [|y r]]; simpl in *; [destruct F | | lia].
+  destruct F as [<-|[]]. destruct F' as [<-|[]]. reflexivity.
+Qed.
+End Roots.
+
+(* ... and everything before a provider without parameters in its pool is a provider without parameters *)
+Theorem before_root_roots i m1 b m2 : pool i = m1 ++ b :: m2 -> nreq b = 0 -> forall a, In a m1 -> nreq a = 0.
+Proof.
+  intros E Hb a Ha. destruct (pool_order i m1 b m2 E) as (l1 & l2 & Et & Hin). specialize (Hin a Ha).
+  destruct (Kahn.topo_roots_first nn outs nreq src outs_src) as (R & NR & Es & FR & FN). fold tp in Es. rewrite Es in Et.
+  rewrite Forall_forall in FR, FN.
+  apply app_eq_app in Et. destruct Et as (l & [(E1 & E2)|(E1 & E2)]).
+  - (* R = l1 ++ l *) apply FR. rewrite E1. apply in_or_app. left; auto.
+  - (* l1 = R ++ l, NR = l ++ b :: l2: b would have parameters *)
+    exfalso. apply (FN b); auto. rewrite E2. apply in_or_app. right. left. reflexivity.
+Qed.
+
 (* ---------------- emission ---------------- *)
 Variable fallible : nat -> bool.
 Variable reterr : bool.
@@ -362,6 +563,34 @@ Proof.
   - apply filter_In in H. symmetry. tauto.
   - destruct (isarg (fst x)) eqn:E; auto. exfalso. apply H. apply filter_In. split; auto.
     apply in_seq. pose proof (arg_lt _ E). lia.
+Qed.
+
+(* ---- C05: where a provider without parameters sits in the emitted program ---- *)
+Lemma root_located n : n < nn -> isarg n = false -> nreq n = 0 ->
+  exists t j, item_at P t j = Some (mkitem n) /\ (forall q it, q <= j -> item_at P t q = Some it -> it_waits it = []).
+Proof.
+  intros Hn Ha Hr. destruct (provider_placed n Hn Ha) as (i & Hi & Hin).
+  assert (Hne : pool i <> []) by (intro E; rewrite E in Hin; destruct Hin).
+  pose proof (tix_all i Hi Hne) as Ht. apply In_nth_error in Ht. destruct Ht as (t & Ht).
+  apply In_nth_error in Hin. destruct Hin as (j & Hj).
+  exists t, j. split; [apply item_at_P; exists i, n; auto|].
+  intros q it Hq Hit. apply item_at_P in Hit. destruct Hit as (i' & m & Ht' & Hm & ->). rewrite Ht in Ht'. inversion Ht'; subst i'.
+  assert (Hm0 : nreq m = 0).
+  { destruct (Nat.eq_dec q j) as [->|Hne2]; [rewrite Hj in Hm; inversion Hm; subst; auto|].
+    destruct (nth_error_split _ _ Hj) as (m1 & m2 & E & L). apply (before_root_roots i m1 n m2 E Hr).
+    rewrite E in Hm. rewrite nth_error_app1 in Hm by lia. eapply nth_error_In; eauto. }
+  unfold mkitem. cbn [it_waits]. unfold args_of. rewrite Hm0. reflexivity.
+Qed.
+Lemma root_threads_distinct
+  (np_roots : forall l, NoDup l -> (forall x, In x l -> x < nn /\ nreq x = 0 /\ isarg x = false /\ isasync x = true) -> length l <= np)
+  n n' t j j' : item_at P t j = Some (mkitem n) -> item_at P t j' = Some (mkitem n') ->
+  nreq n = 0 -> nreq n' = 0 -> isasync n = true -> isasync n' = true -> n = n'.
+Proof.
+  intros H H' R R' A0 A0'. apply item_at_P in H. apply item_at_P in H'. destruct H as (i & m & Ht & Hm & E). destruct H' as (i' & m' & Ht' & Hm' & E').
+  rewrite Ht in Ht'. inversion Ht'; subst i'.
+  assert (m = n) by (apply (f_equal it_node) in E; simpl in E; auto). assert (m' = n') by (apply (f_equal it_node) in E'; simpl in E'; auto). subst m m'.
+  apply (async_roots_apart np_roots n n' i); [eapply nth_error_In; eauto | eapply nth_error_In; eauto | |];
+    unfold aroot; rewrite ?A0, ?A0', ?R, ?R'; reflexivity.
 Qed.
 
 Lemma pool_nodup i : NoDup (pool i).
